@@ -99,7 +99,9 @@ Open Scope string_scope.
                     | VL [VF a; VF b; VF c], false => feqb_bits a (plon p) && feqb_bits b (plat p) && feqb_bits c (palt p)
                     | _, _ => false end in
         let prop := check_new_point lon lat alt obs in
-        mkv corr prop (if corr && negb prop then "setlat_inexact" else "-") m
+        (* class setlat_inexact, decided on the input: the bit-exact model's own cut |lat| - |stored| is outside [0, 1e-10) *)
+        let inexact := negb e && negb (exact_cut_ok lat (setlat_trunc lat)) in
+        mkv corr prop (if corr && negb prop && inexact then "setlat_inexact" else "-") m
     | _ => bad_case
     end.
 
